@@ -150,6 +150,12 @@ func init() {
 	c10 := props["C10"]
 	c10.Quick = 48000
 	props["C10"] = c10
+	// C18 b: streams produced by the released v0.0.17 writer are decoded by the
+	// current reader (reader-chunk engine in C18 mode) in every 4th chunk of runs
+	c18 := props["C18"]
+	c18.Also = "reader-chunk"
+	c18.Real = append(append([]string{}, c18.Real...), "drpcwire.Reader over bytes of the vendored v0.0.17 Writer/SplitN (every 4th chunk of runs: reader-chunk engine)")
+	props["C18"] = c18
 	c06 := props["C06"]
 	c06.Quick = 48000
 	props["C06"] = c06
